@@ -17,7 +17,7 @@ def _sig(c, v):
 SPEC = {
     "runners": [{
         "sigfn": _sig,
-        "kind": "coqcases", "harness": "c17", "corr": "Run/CorrC17.v (model of middleware + route table vs the running server.Server)",
+        "kind": "coqcases", "module": "CorrC17", "harness": "c17", "corr": "Run/CorrC17.v (model of middleware + route table vs the running server.Server)",
         "timeout": 2400,
         "rule": "each case = one real exchange (HTTP, HTTPS/TLS with a certificate generated at run time, or one gRPC call / reflection listing) against a started server.Server on loopback, re-run in Coq on the model: the monitor checks routing against the AddRoute call list, the enter/exit order of recording middleware, and equality with the run WITHOUT LogRequest/LogResponse; then the full event log incl. the logger's messages is compared with the model. Generation: the refutation witnesses first; every subset of 6 (method,path) pairs x 12 requests x both listeners; every middleware list over {LogRequest, LogResponse, rec1, rec2} up to a length bound x 4 handler programs (echo, partial reads, headers/status, empty); seeded random configurations (routes, handler programs, scripted middleware, headers, bodies); every subset of 5 gRPC descriptors with re-registration, initializers and reflection. distinct = by (listener, AddRoute calls, middleware list, request) resp. (registrations, called service); non-trivial = the listener has at least one route / the server at least one registration.",
     }],
